@@ -150,6 +150,21 @@ def group_history_spec():
     )
 
 
+def loop_history_spec():
+    """Histories over very few nodes - one or two workers and one or two placeholders - so that wiring a worker back to
+    itself through placeholders (in any call order) is the common case rather than the rare one."""
+    fixed = [{'k': 'w', 'st': False, 'i': 1, 'o': 1}, {'k': 'f', 'sz': 1}]
+    extra = st.lists(st.sampled_from([{'k': 'f', 'sz': 1}, {'k': 'w', 'st': False, 'i': 2, 'o': 1}, {'k': 'w', 'st': True, 'i': 1, 'o': 1}]), max_size=2)
+    kinds = ['subscribe'] * 6 + ['segment', 'retry']
+    return st.fixed_dictionaries(
+        {
+            'nodes': extra.map(lambda more: fixed + more),
+            'ops': st.lists(op_spec(kinds), min_size=2, max_size=8),
+            'clean': st.just(False),
+        }
+    )
+
+
 def multiedge_history_spec():
     """Histories about nodes joined by more than one port pair (a 1:2 splitter feeding both inputs of a 2:1 merger, straight
     or crossed) being traced and copied."""
@@ -602,6 +617,7 @@ def campaigns(ctx):
         Campaign('perm', perm_spec(thorough), check_perm, 500, 300),
         Campaign('groups', group_history_spec(), check_history, 600, 4000),
         Campaign('multiedge', multiedge_history_spec(), check_history, 600, 4000),
+        Campaign('loops', loop_history_spec(), check_history, 500, 3000),
     ]
 
 
